@@ -190,6 +190,9 @@ func (s *Sim) checkReports(ctx *StepCtx) {
 	if !s.oracleOn("C10") && !s.oracleOn("C11") && !s.oracleOn("C12") {
 		return
 	}
+	if s.cfg.Profile == "C15" && s.model.perioTaint {
+		return
+	}
 	ureps := s.collectUReps(ctx)
 	s.checkC11(ctx, ureps)
 	s.checkC10(ctx, ureps)
@@ -324,6 +327,7 @@ func (s *Sim) checkC10(ctx *StepCtx, ureps []*URep) {
 		if hit == nil {
 			s.violate("C10", "report.measured", "report:unmeasured:"+u.Carrier,
 				"usage report %s for URR %d (session %v) matches nothing the data plane measured in this step; measured: %s", u, u.URRID, sessName(u.Sess), kreps(ctx.KReps))
+			continue
 		}
 		hit.hit = true
 		u.matched = true
